@@ -270,6 +270,11 @@ def gen(tier, rng):
     for doc in range(len(DOCS)):
         for which in range(len(SHIPPED)):
             yield {"op": "shipped", "doc": doc, "which": which}
+    # the default stacks are built for each call: a list a caller got from default_parse_stack() / default_unparse_stack()
+    # and changed does not change what the entry points apply
+    for doc in range(len(DOCS)):
+        for how in ("pop", "clear", "reverse", "append", "insert"):
+            yield {"op": "defmut", "doc": doc, "how": how}
 
 
 def _stack_wire(st):
@@ -291,7 +296,7 @@ def request(case):
         else:
             start = _split_blocks(text)
         return rq("parsestack", B.enc_blocks(start), [], _stack_wire(case["ps"]), _stack_wire(case["am"]))
-    if case["op"] in ("libmw", "shipped"):
+    if case["op"] in ("libmw", "shipped", "defmut"):
         return None
     if case["op"] == "write":
         start = bibtexparser.parse_string(text).blocks
@@ -377,6 +382,60 @@ def _shipped_check(case):
     return None
 
 
+def _defmut_check(case):
+    """a list obtained from default_parse_stack() / default_unparse_stack() belongs to the caller: after they changed it
+    (pop, clear, reverse, append or insert of a middleware of their own), parse_string / write_string without a stack
+    argument - and with append_middleware / prepend_middleware - still apply exactly the default stack. Whatever was
+    changed is put back afterwards (on the unchanged code nothing is shared)."""
+    import bibtexparser
+    from bibtexparser.middlewares import parsestack
+    text, how = DOCS[case["doc"]], case["how"]
+
+    def run():
+        lib = bibtexparser.parse_string(text)
+        a = enc(B.enc_blocks(lib.blocks, prev=False))
+        b = enc(B.enc_blocks(bibtexparser.parse_string(text, append_middleware=[_probe(["tag", "1"])]).blocks, prev=False))
+        return a, b, lib
+
+    a0, b0, lib0 = run()
+    t0 = bibtexparser.write_string(lib0)
+    p0 = bibtexparser.write_string(lib0, prepend_middleware=[_probe(["tag", "2"])])
+    saved = []
+    try:
+        for fn in (parsestack.default_parse_stack, parsestack.default_unparse_stack):
+            for kw in ({}, {"allow_inplace_modification": True}, {"allow_inplace_modification": False}):
+                st = fn(**kw)
+                if not isinstance(st, list):
+                    continue
+                saved.append((st, list(st)))
+                if how == "pop" and st:
+                    st.pop(0)
+                elif how == "clear":
+                    del st[:]
+                elif how == "reverse":
+                    st.reverse()
+                elif how == "append":
+                    st.append(_probe(["tag", "9"]))
+                elif how == "insert":
+                    st.insert(0, _probe(["tag", "9"]))
+        a1, b1, _lib1 = run()
+        t1 = bibtexparser.write_string(lib0)
+        p1 = bibtexparser.write_string(lib0, prepend_middleware=[_probe(["tag", "2"])])
+    finally:
+        for st, was in reversed(saved):
+            st[:] = was
+    what = "after a caller changed (%s) the lists they got from default_parse_stack() / default_unparse_stack(), " % how
+    if a1 != a0:
+        return what + "parse_string(text) gives other blocks than before"
+    if b1 != b0:
+        return what + "parse_string(text, append_middleware=[...]) gives other blocks than before"
+    if t1 != t0:
+        return what + "write_string(library) gives %r instead of %r" % (t1[:100], t0[:100])
+    if p1 != p0:
+        return what + "write_string(library, prepend_middleware=[...]) gives %r instead of %r" % (p1[:100], p0[:100])
+    return None
+
+
 def _libmw_check(case):
     """every requested library-level middleware runs exactly once, in the requested order, on every document"""
     import bibtexparser
@@ -426,6 +485,11 @@ def impl(case):
         if f:
             raise AssertionError(f)
         return "(ok shipped)"
+    if case["op"] == "defmut":
+        f = _defmut_check(case)
+        if f:
+            raise AssertionError(f)
+        return "(ok defmut)"
     text = DOCS[case["doc"]]
     if case["op"] == "parse":
         ct = case.get("ct", "list")
@@ -538,6 +602,8 @@ def oracle(case):
         return _libmw_check(case)
     if case["op"] == "shipped":
         return _shipped_check(case)
+    if case["op"] == "defmut":
+        return _defmut_check(case)
     text = DOCS[case["doc"]]
     if case["op"] == "parse":
         ps, am = case["ps"], case["am"]
@@ -608,7 +674,7 @@ def describe(cases, outs):
 
 
 def nontrivial(case, out):
-    return bool(case.get("ps") or case.get("am") or case.get("us") or case.get("pm")) or case["op"] in ("file", "libmw", "shipped")
+    return bool(case.get("ps") or case.get("am") or case.get("us") or case.get("pm")) or case["op"] in ("file", "libmw", "shipped", "defmut")
 
 
 PY_ONLY_MAY_RAISE = False
